@@ -494,7 +494,20 @@ impl Driver {
             checks += 1;
             match self.locate(ptr, len) {
                 Loc::Nothing | Loc::Static | Loc::Block(_) => {}
-                Loc::Straddle(b) => found.push(("C02".into(), "range-straddle".into(), format!("{}{} [{:#x},+{}) extends past block [{:#x},+{})", s.tname(), s.id, ptr, len, b.user, b.size))),
+                Loc::Straddle(b) => {
+                    found.push(("C02".into(), "range-straddle".into(), format!("{}{} [{:#x},+{}) extends past block [{:#x},+{})", s.tname(), s.id, ptr, len, b.user, b.size)));
+                    // the readable part runs on into storage that has already been released
+                    // (back-to-back placement): the view outlives (part of) what it reads
+                    let rl = s.len();
+                    let end = b.user + b.size;
+                    if rl > 0 && ptr + rl > end {
+                        if let Some(f) = mem::find_freed(end) {
+                            if f.user == end {
+                                found.push(("C03".into(), "early-free".into(), format!("{}{} is live and reads [{:#x},+{}) but the block seq={} holding its tail was already freed", s.tname(), s.id, ptr, rl, f.seq)));
+                            }
+                        }
+                    }
+                }
                 Loc::Freed(b) => {
                     found.push(("C02".into(), "range-freed".into(), format!("{}{} [{:#x},+{}) lies in freed block seq={}", s.tname(), s.id, ptr, len, b.seq)));
                     found.push(("C03".into(), "early-free".into(), format!("{}{} is live and non-empty but its block seq={} was already freed", s.tname(), s.id, b.seq)));
